@@ -1,7 +1,7 @@
 #!/usr/bin/env python3
 import json, os
-N = 30
-kind = {0:'null',1:'bool',2:'num',3:'num',4:'num',5:'str',6:'str',7:'str',8:'str',9:'str',10:'arr',11:'arr',12:'arr',13:'arr',14:'arr',15:'obj',16:'obj',17:'obj',18:'obj',19:'obj',20:'arr',21:'arr',22:'obj',23:'obj',24:'obj',25:'arr',26:'arr',27:'obj',28:'arr',29:'arr'}
+N = 31
+kind = {0:'null',1:'bool',2:'num',3:'num',4:'num',5:'str',6:'str',7:'str',8:'str',9:'str',10:'arr',11:'arr',12:'arr',13:'arr',14:'arr',15:'obj',16:'obj',17:'obj',18:'obj',19:'obj',20:'arr',21:'arr',22:'obj',23:'obj',24:'obj',25:'arr',26:'arr',27:'obj',28:'arr',29:'arr',30:'obj'}
 rep = {'null':0,'bool':1,'num':2,'str':5,'arr':11,'obj':16}
 pairs_q, pairs_t = [], []
 for a in range(N):
@@ -14,7 +14,7 @@ for a in range(N):
         for ws in (0, 1, 2, 3):
             pairs_t.append([a, b, ws])
 same = [(a,b,c) for a in range(N) for b in range(N) for c in range(N) if kind[a]==kind[b]==kind[c]]
-triples_q = [list(x) for x in same if x[0] in (2,3,5,7,12,16,17) and x[1] in (2,4,5,8,12,16,17) and x[2] in (3,2,6,5,12,17,16)]
+triples_q = [list(x) for x in same if x[0] in (2,3,5,7,12,16,17) and x[1] in (2,4,5,8,12,16,17) and x[2] in (3,2,6,5,12,17,16)] + [[30,17,17]]
 triples_t = [list(x) for x in same]
 broken_q = [[t, p] for t in (0, 1, 3, 7, 8, 12, 13, 17, 23, 25, 29) for p in range(0, 12)]
 broken_t = [[t, p] for t in range(N) for p in range(0, 20)]
@@ -24,9 +24,9 @@ spec = {
  "units": [{"name": "equal", "pkg": "github.com/ogen-go/ogen/json", "dir": "json", "harness": ["harness_equal.go"],
    "cases": {"quick": [{"entry": "HPair", "args": pairs_q}, {"entry": "HTriple", "args": triples_q}, {"entry": "HBroken", "args": broken_q}],
              "thorough": [{"entry": "HPair", "args": pairs_t}, {"entry": "HTriple", "args": triples_t}, {"entry": "HBroken", "args": broken_t}]}}],
- "bounds": {"templates": "30 value templates: null, bool, integers (d, dd, -d), strings (1-2 plain bytes, \\u00HL escape, two-character escapes, empty), arrays (empty, [d], [d,-d], [null], [string], nested, mixed), objects (empty, 1 member, 2 members with independent symbolic names - so reordered and duplicate names are inside -, nested array, null member, string member values in three spellings, object inside object), arrays containing objects incl. two sibling objects (one / two members each, names independent - so a member of one sibling may reappear in the other)",
+ "bounds": {"templates": "31 value templates: null, bool, integers (d, dd, -d), strings (1-2 plain bytes, \\u00HL escape, two-character escapes, empty), arrays (empty, [d], [d,-d], [null], [string], nested, mixed), objects (empty, 1 member, 2 and 3 members with independent symbolic names - so reordered and duplicate names, also a repeated name around a distinct one, are inside -, nested array, null member, string member values in three spellings, object inside object), arrays containing objects incl. two sibling objects (one / two members each, names independent - so a member of one sibling may reappear in the other)",
             "leaves": "every digit, every printable-ASCII string/name byte, every hex spelling of the escape, every choice of whitespace byte (space, tab, LF, CR) at each gap are symbolic",
-            "pairs": "quick: all same-kind template pairs plus one cross-kind representative pair per kind pair; thorough: all 30x30 pairs x 4 whitespace variants; triples of same-kind templates for transitivity; single-byte corruption for totality"},
+            "pairs": "quick: all same-kind template pairs plus one cross-kind representative pair per kind pair; thorough: all 31x31 pairs x 4 whitespace variants; triples of same-kind templates for transitivity; single-byte corruption for totality"},
  "assumptions": ["sync.Pool (jx.GetDecoder) modelled as always allocating a fresh decoder", "strings restricted to printable ASCII (multi-byte UTF-8 is outside the bound)", "for texts in which two member names of one object coincide only order-independence of the verdict is demanded (RFC 8259 leaves their meaning open)", "malformed texts: totality only"],
  "out_of_claim": "every number spelling with '.', 'e' or 'E' (strconv.ParseFloat / big.Rat path) - so 1 vs 1.0 vs 1e0 and integers beyond 2^53 are NOT decided by this check; longer strings, deeper nesting, non-ASCII"
 }
